@@ -1,6 +1,6 @@
 (* Eval02.v — evaluation of C02 observations: generated deriveEqual vs model and specification. *)
 From Coq Require Import String.
-From Verif Require Import Base Sexp Go.Ty Go.Val Go.Equal.
+From Verif Require Import Base Sexp Go.Ty Go.Val Go.Equal Go.Compare Go.Methods.
 Open Scope string_scope.
 
 Definition res_sexp (r : res bool) : sexp :=
@@ -27,15 +27,18 @@ Definition eval02 (e : sexp) : verdict :=
         match parse_ty tys, parse_val xs, parse_val ys with
         | Some t, Some x, Some y =>
             let typed := (has_type [] t x && has_type [] t y)%bool in
-            let m := equal_model t x y in
-            let s := lift (spec_eq [] t x y) in
+            (* the model with the generator's method dispatch; it is the model of EqualProofs
+               on types without user methods, where structural equality is the specification;
+               at components with an Equal method the specification is the method's answer *)
+            let m := eqm_m [] Top t x y in
+            let s := if method_free t then lift (spec_eq [] t x y) else m in
             let inguard := typed in
             {| v_known := typed;
                v_model_ok := sexp_eqb (res_sexp m) real;
                v_spec_ok := sexp_eqb (res_sexp s) real;
                v_guard := inguard;
                v_model := res_sexp m;
-               v_tag := k ++ "/"
+               v_tag := (if method_free t then "" else "methods/") ++ k ++ "/"
                         ++ strat_tag (strategy [] Top t) ++ "/"
                         ++ match m with Ok true => "equal" | Ok false => "different" | _ => "other" end |}
         | _, _, _ => bad_line
